@@ -194,7 +194,7 @@ PLAN = {
     "C01": {"level": "exploration", "engines": _model("all"), "min_nontrivial": 500, "assumptions": MODEL_ASSUMPTIONS},
     "C10": {"level": "exploration", "engines": _model("layout", quick_programs=24, thorough_programs=400), "min_nontrivial": 300,
             "assumptions": MODEL_ASSUMPTIONS + ["independent codec M6 (harness/src/indep.rs) is the reader; it shares no code with feoxdb"]},
-    "C11": {"level": "exploration", "engines": _both(_model("ttl"), _sweep("sweeper", 6, 3, 60, 8), _sweep("ttlcrash", 8, 8, 160, 16), _sweep("bigretire", 2, 2, 24, 8)), "min_nontrivial": 300,
+    "C11": {"level": "exploration", "engines": _both(_model("ttl"), _sweep("sweeper", 6, 3, 60, 8), _sweep("ttlcrash", 8, 8, 160, 16), _sweep("bigretire", 2, 2, 24, 8), _sweep("midread", 6, 3, 60, 8)), "min_nontrivial": 300,
             "assumptions": MODEL_ASSUMPTIONS + CONC_ASSUMPTIONS[:2] + ["sweeper runs use the process-wide virtual clock offset (hook H6) for jumps; bounds around calls are taken from that clock before and after each call"]},
     "C12": {"level": "exploration", "engines": _model("ts"), "min_nontrivial": 300, "assumptions": MODEL_ASSUMPTIONS},
     "C13": {"level": "exploration", "engines": _both(_model("mem"), MEMLIMIT, _conc("lin", 6, 12, {"histories": 400}, {"histories": 8000}), _crash("ack", 4, 60, cuts_q=60, cuts_t=200), _sweep("sweeper", 4, 2, 40, 8)), "min_nontrivial": 300, "assumptions": MODEL_ASSUMPTIONS + CONC_ASSUMPTIONS},
